@@ -11,8 +11,9 @@
      1. method not in SUPPORTED_METHODS                           -> 405
      2. method not GET/HEAD/OPTIONS and no matching XSRF token    -> 403   (check_xsrf_cookie)
      3. prepare(): api/index handler, unsafe method, Sec-Fetch-Site present and not same-origin/none
-                                                                  -> 500   (raises tornado.httpclient.HTTPError, which
-                                                                            tornado.web does not treat as an HTTP error)
+                                                                  -> PrepareStatus = 403 (tornado.web.HTTPError; it
+                                                                     was 500 before /repo 94d6b06b5, when prepare
+                                                                     raised tornado.httpclient.HTTPError)
      4. method not implemented by the handler class               -> 405   (unwrapped _unimplemented_method)
      5. static file handler                                       -> handler (no authentication)
      6. _require_auth: no valid cookie and no valid password      -> 403
@@ -25,8 +26,7 @@ CONSTANTS Routes,      \* route names
           Impl,        \* [route |-> set of implemented methods]
           Rows,        \* probe rows <<route, method, cred, ck, xsrf, sfs>> tried from the initial state
           SessRows,    \* probe rows tried after a prefix (they use the cookie jar or the old password)
-          PrepareStatus, \* 500: prepare() raises tornado.httpclient.HTTPError (the code as it is); 403 once it raises
-                       \* tornado.web.HTTPError
+          PrepareStatus, \* 403: prepare() raises tornado.web.HTTPError (500 with the old tornado.httpclient.HTTPError)
           Logins,      \* login flavours: subset of {"bearer_valid", "query_valid", "form_valid"}
           MaxPre
 VARIABLES valid,   \* cookie numbers the running instance accepts
